@@ -58,9 +58,9 @@ def run(tier, seed, jobs):
     core = [{"s": A, "op": "delete", "m": "a"}, {"s": A, "op": "create", "m": "a"}, {"s": A, "op": "rename", "m": "a", "to": "c"},
             {"s": A, "op": "rename", "m": "c", "to": "a"}, {"s": A, "op": "subscribe", "m": "a"}, {"s": A, "op": "unsubscribe", "m": "a"},
             {"s": A, "op": "delete", "m": "a/b"}, {"s": A, "op": "create", "m": "a/b"}]
-    return run_h(PROP, RULES, [{"cfg_ref": ("vf.props.c17", "cfg", []), "alphabet": alphabet(tier), "depth": 3 if tier == "quick" else 4,
+    return run_h(PROP, RULES, [{"cfg_ref": ("vf.props.c17", "cfg", []), "alphabet": alphabet(tier), "depth": 3,
                                 "label": "INBOX(1), a(1), a/b"},
-                               {"cfg_ref": ("vf.props.c17", "cfg", []), "alphabet": core, "depth": 4 if tier == "quick" else 6,
+                               {"cfg_ref": ("vf.props.c17", "cfg", []), "alphabet": core, "depth": 4 if tier == "quick" else 5,
                                 "label": "core alphabet (delete/create/rename/subscribe of a and a/b), deep"}],
                  ("C17", "C05"), jobs, seed,
                  ["names from a fixed alphabet of 10 (nesting depth 3, space, +, [ ], inbox/s, Drafts); 14 (reference, pattern) pairs for LIST and LSUB after every history",
